@@ -86,7 +86,6 @@ func initNormalizationHeader() {
 			"Content-Type",
 			"Content-Disposition",
 			"Host",
-			"Referer",
 			"User-Agent",
 			"Server",
 			"Origin",
@@ -141,6 +140,19 @@ func normalizeHeaderValueBytes(field, value string) string {
 
 	case hasNormalizationHeader(normalizationHeader.byTimeInsensitive, field):
 		return strings.TrimSpace(value)
+
+	case field == "Referer":
+		// Scheme and authority of a URI are case-insensitive, the rest is not
+		// (RFC 3986 §6.2.2.1).
+		end := len(value)
+		if i := strings.Index(value, "://"); i >= 0 {
+			if j := strings.IndexAny(value[i+3:], "/?#"); j >= 0 {
+				end = i + 3 + j
+			}
+		} else if j := strings.IndexAny(value, "/?#"); j >= 0 {
+			end = j
+		}
+		return strings.ToLower(value[:end]) + value[end:]
 
 	case field == "Authorization":
 		parts := strings.SplitN(value, " ", 2)
@@ -229,9 +241,10 @@ outer:
 		)
 	})
 
-	// Keep first (highest ranked) for each main value
+	// Keep first (highest ranked) of identical members; members that differ in
+	// their parameters (text/html;level=1, text/html;level=2) are different.
 	qualityParts = slices.CompactFunc(qualityParts, func(a, b qualityValue) bool {
-		return a.main == b.main
+		return a.main == b.main && slices.Equal(a.params, b.params)
 	})
 
 	// Reconstruct
@@ -265,15 +278,28 @@ func formatQValue(q float64) string {
 //   - https://www.rfc-editor.org/rfc/rfc9110.html#name-content-coding
 //   - https://datatracker.ietf.org/doc/html/rfc9110#name-te
 //   - https://www.rfc-editor.org/rfc/rfc9112#section-7
-var encodingReplacer = strings.NewReplacer(
-	"x-gzip", "gzip",
-	"x-compress", "compress",
-)
+var encodingAliases = map[string]string{
+	"x-gzip":     "gzip",
+	"x-compress": "compress",
+}
 
-// normalizeEncodingHeader handles special cases for encoding headers.
+// normalizeEncodingHeader handles special cases for encoding headers: an
+// alias is replaced where it is the coding name of a list member, not where
+// it is part of another name.
 func normalizeEncodingHeader(value string) string {
-	value = encodingReplacer.Replace(value)
-	return normalizeOrderInsensitive(value)
+	parts := make([]string, 0, 4)
+	for part := range TrimmedCSVSeq(value) {
+		name, params, found := strings.Cut(part, ";")
+		if alias, ok := encodingAliases[strings.ToLower(strings.TrimSpace(name))]; ok {
+			part = alias
+			if found {
+				part += ";" + params
+			}
+		}
+		parts = append(parts, part)
+	}
+	slices.Sort(parts)
+	return strings.Join(parts, ",")
 }
 
 // VaryHeaderNormalizer describes the interface implemented by types that can
